@@ -12,6 +12,7 @@
 #include <igris/util/verif_hook.h>
 
 #include <algorithm>
+#include <climits>
 #include <chrono>
 #include <deque>
 #include <map>
